@@ -23,7 +23,9 @@ RULE = ('datasets of 0..12 rows x every geometry in {padded_batch(bs in 1,2,3,4,
         'hand-made batches with real rows at arbitrary positions, garbage in padded rows and fully padded batches}, '
         'regulariser on/off, 1-2 clients; APIs: models.grad, model_grad, evaluate_average_loss, AverageLossEvaluator '
         '(global / per-client params), mime.create_grads_for_each_client (+ the server full-batch gradient), '
-        'agnostic_fed_avg.create_domain_metrics_for_each_client, hyp_cluster._cluster_losses; '
+        'agnostic_fed_avg.create_domain_metrics_for_each_client, hyp_cluster._cluster_losses; plus algorithm-level cases: the real '
+        'mime.mime / mime_lite.mime_lite (momentum base optimizer) and agnostic_federated_averaging (eg) run for 2 rounds on cohorts '
+        'of empty / mixed / normal clients under 3 grads / domain batch geometries, every leaf of the new state finite and equal to the closed form; '
         'non-trivial = at least one real row and one padded row or >= 2 batches; distinct = distinct case JSON')
 TRUSTED = ['jax.grad is the gradient and is linear; it differentiates safe_div(a, n) with n constant as safe_div(grad a, n) (exercised on every case, not modelled)',
            'float32 sums of the generated dyadic values are exact; divisions round (compared within 2e-5*(1+|x|) inside Coq)',
@@ -96,6 +98,22 @@ def _case(rng, n, reg):
           'reg': bool(reg), 'split': rng.randrange(0, n + 1), 'geos': geos}
 
 
+ALGO_PATTERNS = ['empty1', 'empty2', 'empty-then-empty', 'mixed', 'normal']
+
+
+def _algo_case(rng, pattern, reg):
+  """9 rows owned by clients A (4 rows), B (3), C (2); two rounds of cohorts."""
+  c = _case(rng, 9, reg)
+  a, b, cc = list(range(0, 4)), list(range(4, 7)), list(range(7, 9))
+  if rng.random() < 0.5:
+    c['dom'] = [rng.choice([0, 1]) for _ in range(9)]   # a domain without any example
+  r1 = {'empty1': [[]], 'empty2': [[], []], 'empty-then-empty': [[]], 'mixed': [[], a, []], 'normal': [a, b]}[pattern]
+  r2 = {'empty-then-empty': [[], []], 'mixed': [b, [], cc]}.get(pattern, [b, cc])
+  c.update({'kind': 'algo', 'pattern': pattern, 'rounds': [r1, r2]})
+  del c['geos'], c['split']
+  return c
+
+
 def generate(tier, rng):
   if tier == 'quick':
     ns = [0, 1, 2, 3, 5, 8, 9, 12]
@@ -106,6 +124,11 @@ def generate(tier, rng):
   else:
     ns = list(range(0, 13)) + [17, 24]
     reps = 24
+  # algorithm-level cases first: the REAL mime / mime_lite / agnostic_federated_averaging for 2 rounds
+  for rep in range({'quick': 1, 'search': 6}.get(tier, 4)):
+    for pattern in ALGO_PATTERNS:
+      for reg in (False, True):
+        yield _algo_case(rng, pattern, reg)
   for rep in range(reps):
     for n in ns:
       for reg in (False, True):
@@ -219,7 +242,163 @@ def _params(case, which=1):
   return {'w': jnp.array([w[0] / 4, w[1] / 4], jnp.float32), 'b': jnp.array(b / 4, jnp.float32)}
 
 
+ALGO_GEOS = [(1, 1), (4, 2), (8, 3)]
+LR, MOM, SLR, DLR = 0.125, 0.5, 1.0, 0.0625
+ATOL = 1e-4
+
+
+def _algo(kind, reg, geo):
+  key = (kind, reg, geo)
+  if key in _API:
+    return _API[key]
+  from fedjax.core import optimizers, client_datasets
+  from fedjax.algorithms import mime, mime_lite, agnostic_fed_avg
+  api = _api(reg)
+  cb = client_datasets.ShuffleRepeatBatchHParams(batch_size=32, num_epochs=1, seed=0)
+  pb = client_datasets.PaddedBatchHParams(batch_size=geo[0], num_batch_size_buckets=geo[1])
+  if kind in ('mime', 'mime_lite'):
+    build = mime.mime if kind == 'mime' else mime_lite.mime_lite
+    alg = build(per_example_loss=api['pel'], base_optimizer=optimizers.sgd(LR, momentum=MOM), client_batch_hparams=cb,
+                grads_batch_hparams=pb, server_learning_rate=SLR, regularizer=api['regf'])
+  else:
+    alg = agnostic_fed_avg.agnostic_federated_averaging(
+        per_example_loss=api['pel'], client_optimizer=optimizers.sgd(LR), server_optimizer=optimizers.sgd(1.0),
+        client_batch_hparams=cb, domain_batch_hparams=pb, init_domain_weights=ALPHA, domain_learning_rate=DLR,
+        domain_algorithm='eg', regularizer=api['regf'])
+  _API[key] = alg
+  return alg
+
+
+def _leaves(tree):
+  import jax
+  out = []
+  for leaf in jax.tree_util.tree_leaves(tree):
+    out += [float(v) for v in np.asarray(leaf, dtype=np.float64).ravel()]
+  return out
+
+
+def _run_algo(case):
+  import jax
+  obs = {'algos': {}}
+  for kind in ('mime', 'mime_lite', 'agnostic'):
+    per_geo = []
+    for geo in ALGO_GEOS:
+      alg = _algo(kind, case['reg'], geo)
+      state = alg.init(_params(case))
+      rounds = []
+      for cohort in case['rounds']:
+        clients = [(b'c%d' % i, _dataset(case, rows), jax.random.PRNGKey(i)) for i, rows in enumerate(cohort)]
+        state, _ = alg.apply(state, clients)
+        o = {'params': _vec(state.params), 'all_leaves': _leaves(state)}
+        if kind == 'agnostic':
+          o['domain_weights'] = [float(v) for v in np.asarray(state.domain_weights)]
+        else:
+          tr = jax.tree_util.tree_leaves(state.opt_state)
+          # optax sgd+momentum: one trace tree shaped like params ({'b': (), 'w': (2,)} in key order)
+          o['trace'] = ([float(v) for v in np.asarray(tr[1])] + [float(np.asarray(tr[0]))]) if len(tr) == 2 else None
+        rounds.append(o)
+      entry = {'geo': list(geo), 'rounds': rounds}
+      if kind == 'mime':
+        entry['layout1'] = [_layout(_materialise(case, ['pb', geo[0], geo[1]], rows)) for rows in case['rounds'][0]]
+      per_geo.append(entry)
+    obs['algos'][kind] = per_geo
+  return obs
+
+
+def _closed_at(case, p, rows):
+  """Per-example losses / gradients of the given rows at params p = [w1, w2, b]; r and grad r."""
+  X = np.array([case['x'][i] for i in rows], np.float64).reshape(-1, 2) / 4
+  Y = np.array([case['y'][i] for i in rows], np.float64) / 4
+  w, b = np.array(p[:2], np.float64), float(p[2])
+  e = X @ w + b - Y
+  G = np.stack([2 * e * X[:, 0], 2 * e * X[:, 1], 2 * e], axis=1) if len(rows) else np.zeros((0, 3))
+  lam = float(LAM) if case['reg'] else 0.0
+  return e * e, G, lam * (w @ w + b * b), 2 * lam * np.array([w[0], w[1], b])
+
+
+def _anear(a, b):
+  return math.isfinite(a) and abs(a - b) <= ATOL * (1 + abs(b))
+
+
+def _oracle_algo(case, obs):
+  out = []
+
+  def add(key, msg):
+    if key not in [k for k, _ in out]:
+      out.append((key, msg))
+
+  p0 = [case['w'][0] / 4, case['w'][1] / 4, case['b'] / 4]
+  for kind in ('mime', 'mime_lite'):
+    ref = None
+    for entry in obs['algos'][kind]:
+      p, tr = np.array(p0), np.zeros(3)
+      for t, (cohort, o) in enumerate(zip(case['rounds'], entry['rounds'])):
+        rows = [i for c in cohort for i in c]
+        if not all(math.isfinite(v) for v in o['all_leaves']):
+          add(f'{kind}.algorithm.nonfinite-state',
+              f'round {t + 1} over clients of sizes {[len(c) for c in cohort]} (grads batch {entry["geo"]}): non-finite leaf in the new server state {o["all_leaves"]}')
+          break
+        _, G, _, dr = _closed_at(case, p, rows)
+        g = (G.mean(axis=0) + dr) if rows else np.zeros(3)          # full-batch gradient: 0 without real examples
+        delta = LR * (g + MOM * tr) if rows else np.zeros(3)        # one full-client step per non-empty client
+        p, tr = p - SLR * delta, g + MOM * tr
+        if o['trace'] is None or not all(_anear(a, b) for a, b in zip(o['trace'], tr)):
+          add(f'{kind}.algorithm.opt-state', f'round {t + 1} (grads batch {entry["geo"]}): momentum buffer {o["trace"]}, closed form {tr.tolist()}')
+        if not all(_anear(a, b) for a, b in zip(o['params'], p)):
+          add(f'{kind}.algorithm.params', f'round {t + 1} (grads batch {entry["geo"]}): params {o["params"]}, closed form {p.tolist()}')
+      last = entry['rounds'][-1]
+      if ref is None:
+        ref = (entry['geo'], last)
+      elif not all(_anear(a, b) for a, b in zip(last['all_leaves'], ref[1]['all_leaves'])):
+        add(f'{kind}.algorithm.geometry', f'final state under grads batch {entry["geo"]} {last["all_leaves"]} differs from {ref[0]} {ref[1]["all_leaves"]}')
+  ref = None
+  for entry in obs['algos']['agnostic']:
+    p, w = np.array(p0), np.array(ALPHA, np.float64)
+    for t, (cohort, o) in enumerate(zip(case['rounds'], entry['rounds'])):
+      rows = [i for c in cohort for i in c]
+      if not all(math.isfinite(v) for v in o['all_leaves']):
+        add('agnostic.algorithm.nonfinite-state', f'round {t + 1} (domain batch {entry["geo"]}): non-finite leaf in the new server state')
+        break
+      loss, _, _, _ = _closed_at(case, p, rows)
+      dom = np.array([case['dom'][i] for i in rows], int)
+      mean = np.array([loss[dom == d].mean() if (dom == d).any() else 0.0 for d in range(ND)])
+      w = w * np.exp(DLR * mean)
+      w = w / w.sum()
+      if not all(_anear(a, b) for a, b in zip(o['domain_weights'], w)):
+        add('agnostic.algorithm.domain-weights-closed-form',
+            f'round {t + 1} (domain batch {entry["geo"]}): domain weights {o["domain_weights"]}, EG update with the mean real per-domain losses {w.tolist()}')
+      p, w = np.array(o['params']), np.array(o['domain_weights'])
+    if ref is None:
+      ref = entry
+    else:
+      for t, (o, q) in enumerate(zip(entry['rounds'], ref['rounds'])):
+        if not all(_anear(a, b) for a, b in zip(o['domain_weights'], q['domain_weights'])):
+          add('agnostic.algorithm.domain-weights-geometry',
+              f'round {t + 1}: domain weights {o["domain_weights"]} under domain batch {entry["geo"]}, {q["domain_weights"]} under {ref["geo"]} (same clients and seeds)')
+        if not all(_anear(a, b) for a, b in zip(o['params'], q['params'])):
+          add('agnostic.algorithm.params-geometry',
+              f'round {t + 1}: params {o["params"]} under domain batch {entry["geo"]}, {q["params"]} under {ref["geo"]}')
+  return out
+
+
+def _encode_algo(case, obs):
+  """Round 1 from a fresh state: the momentum buffer IS Mime's full-batch server gradient."""
+  real, row, r, dr = _exact(case)
+  items = []
+  for entry in obs['algos']['mime']:
+    tr = entry['rounds'][0]['trace']
+    if tr is None or not all(math.isfinite(v) for v in tr):
+      return None
+    for j in range(3):
+      cl = fw.clist([fw.clist([f'({fw.qlist(_cell_vals(case, real, row, cells, j + 1))}, {_mask(cells)})' for cells in clay])
+                     for clay in entry['layout1']])
+      items.append(f'(KMime {_oq(dr[j])} {cl}, {fw.qlist([tr[j]])})')
+  return f'({fw.clist(items)}, tt)'
+
+
 def run(case):
+  if case.get('kind') == 'algo':
+    return _run_algo(case)
   import jax
   import jax.numpy as jnp
   from fedjax.core import models, tree_util, client_datasets
@@ -306,6 +485,8 @@ def _mean_rows(vals, rows, zero):
 
 
 def oracle(case, obs):
+  if case.get('kind') == 'algo':
+    return _oracle_algo(case, obs)
   out = []
   loss, G, r, dr = _closed(case)
   n = len(loss)
@@ -419,6 +600,8 @@ def _mask(cells):
 
 
 def encode(case, obs):
+  if case.get('kind') == 'algo':
+    return _encode_algo(case, obs)
   real, row, r, dr = _exact(case)
   items = []
 
@@ -463,6 +646,8 @@ def encode(case, obs):
 
 
 def nontrivial(case, obs):
+  if case.get('kind') == 'algo':
+    return True
   for g in obs['geos']:
     cells = [c for b in g['layout'] for c in b]
     if len(g['layout']) >= 2 or (any(isinstance(c, list) for c in cells) and any(not isinstance(c, list) for c in cells)):
@@ -471,6 +656,8 @@ def nontrivial(case, obs):
 
 
 def describe(case, obs):
+  if case.get('kind') == 'algo':
+    return {'algo_pattern': case['pattern'], 'reg': case['reg']}
   n = len(case['y'])
   d = {'rows': n, 'reg': case['reg'], 'geometries': len(case['geos'])}
   fully = sum(1 for g in obs['geos'] for b in g['layout'] if all(isinstance(c, list) for c in b))
@@ -480,6 +667,10 @@ def describe(case, obs):
 
 
 def shrink(case):
+  if case.get('kind') == 'algo':
+    if len(case['rounds']) > 1:
+      yield {**case, 'rounds': case['rounds'][:1]}
+    return
   n = len(case['y'])
   if len(case['geos']) > 2:
     for i in range(len(case['geos'])):
